@@ -65,8 +65,12 @@ def Quirks.original : Quirks := ⟨true, true, true, true, true, true⟩
 `recursive_subclasses` (F-C13-2, fix commit in /repo) and `fixes/C14_dead_neighbour_in_transitive_inference.diff`
 (F-C14-2: dead, unswept neighbours are left out of the transitive inference) and the repair of F-C20-1 (the expression
 table and the class-level expression graph reference expressions weakly: a dropped query object is released together
-with its cached domain) are applied; F-C13-1 (`cachedDomain`) is open -/
-def Quirks.asIs : Quirks := ⟨false, false, false, true, false, false⟩
+with its cached domain) and of F-C13-1 (a variable declared without a domain reads the registry anew at every evaluation)
+are applied: no quirk is left on -/
+def Quirks.asIs : Quirks := ⟨false, false, false, false, false, false⟩
+/-- the code before the repair of F-C13-1: a re-evaluated domain-less query object ranged over the domain cached at its first
+evaluation -/
+def Quirks.cached : Quirks := { Quirks.asIs with cachedDomain := true }
 /-- the code before the repair of F-C20-1 (`_id_expression_map_` a plain dict, `RWXNode._graph` referencing every
 expression strongly): the expression table never released a query object -/
 def Quirks.leaky : Quirks := { Quirks.asIs with exprTableLeak := true }
